@@ -39,6 +39,9 @@ def run(ctx: Ctx):
     axis_order(ctx)
     extraction(ctx)
     wiring(ctx)
+    from .common import generic_lints
+
+    generic_lints(ctx)
 
 
 # --------------------------------------------------------------------------- 1
